@@ -137,6 +137,12 @@ func c15seq(c *run.Ctx) {
 	for round := 0; round < rounds; round++ {
 		r := caseRng(c, round)
 		w := c15World(nil)
+		type acc struct {
+			form url.Values
+			au   world.Auth
+			desc string
+		}
+		var accepted []acc
 		for mi, m := range caMuts {
 			for _, target := range []string{"pk-rs", "pk-es"} {
 				cl := map[string]interface{}{"iss": target, "sub": target, "aud": world.TokenURL, "exp": now().Add(time.Duration(30+r.Intn(3000)) * time.Second).Unix(), "iat": now().Unix(), "jti": nextJTI("ca")}
@@ -203,9 +209,20 @@ func c15seq(c *run.Ctx) {
 						if out2.Err == nil {
 							c.Violate(run.Violation{Kind: "jti-accepted-twice", Key: "jti-accepted-twice client-assertion sequential", Detail: "the same client assertion authenticated twice", History: hist})
 						}
+						accepted = append(accepted, acc{form, au, "client assertion " + target + " " + m.name})
 					}
 				}
 				_ = mi
+			}
+		}
+		// every assertion accepted earlier in this history (with earlier and later expiries than the ones accepted since)
+		// is still unexpired: replaying it now must be refused
+		for _, a := range accepted {
+			out := w.Token(a.form, a.au)
+			c.Case(fmt.Sprintf("client-assertion late-replay accepted=%v", out.Err == nil))
+			c.Count("c15_replays_rejected", 1)
+			if out.Err == nil {
+				c.Violate(run.Violation{Kind: "jti-accepted-twice", Key: "jti-accepted-twice client-assertion late replay", Detail: "an assertion accepted earlier in the history was accepted again after other assertions had been presented: " + a.desc})
 			}
 		}
 		c15Bearer(c, w, round)
@@ -292,6 +309,7 @@ func c15Bearer(c *run.Ctx, w0 *world.World, round int) {
 				cl["exp"] = now().Add(5 * time.Minute).Unix()
 			}},
 		}
+		var acceptedB []url.Values
 		for _, m := range ms {
 			cl := map[string]interface{}{"iss": "iss-15", "sub": "svc-15", "aud": []string{world.TokenURL}, "exp": now().Add(time.Duration(30+r.Intn(500)) * time.Second).Unix(), "iat": now().Unix(), "jti": nextJTI("ba")}
 			hd := map[string]interface{}{"kid": "bk"}
@@ -327,10 +345,19 @@ func c15Bearer(c *run.Ctx, w0 *world.World, round int) {
 						if out2.Err == nil {
 							c.Violate(run.Violation{Kind: "jti-accepted-twice", Key: "jti-accepted-twice jwt-bearer sequential cfg=" + cfg.name, Detail: "the same JWT bearer assertion was accepted twice", History: hist})
 						}
+						acceptedB = append(acceptedB, form)
 					}
 				} else {
 					c.Count("c15_valid_refused:"+m.name+":"+out.ErrName, 1)
 				}
+			}
+		}
+		for _, f := range acceptedB {
+			out := w.Token(f, world.Basic("conf-a", "secret-of-a"))
+			c.Case(fmt.Sprintf("jwt-bearer late-replay cfg=%s accepted=%v", cfg.name, out.Err == nil))
+			c.Count("c15_replays_rejected", 1)
+			if out.Err == nil {
+				c.Violate(run.Violation{Kind: "jti-accepted-twice", Key: "jti-accepted-twice jwt-bearer late replay cfg=" + cfg.name, Detail: "a JWT bearer assertion accepted earlier in the history was accepted again after later-expiring assertions had been presented"})
 			}
 		}
 	}
